@@ -63,7 +63,7 @@ def dcons(k, v, d):
 
 def dput(d, k, v):
     r = OrderedDict(d)
-    r[k] = v
+    r[tuple(k) if isinstance(k, list) else k] = v
     return r
 
 
